@@ -953,4 +953,228 @@ theorem searchLoop_spec (ctx : Ctx) (truth : Nat → Bool) (Inv : Nat → MT →
         rw [i1, hsplit, hk, expFrom]
         simp only [hpnd, Bool.false_eq_true, if_false]
 
+
+/-! ## composition for trees without trigram-backed leaves (filters, engine-decided atoms, connectives) -/
+
+mutual
+/-- no `substrMatchTree` (and hence no `andLineMatchTree`, which only ever has substring children) -/
+def MT.NoSub : MT → Prop
+  | .sub _ => False
+  | .andLine _ _ _ => False
+  | .and _ ch => MTs.NoSubAll ch
+  | .or _ ch => MTs.NoSubAll ch
+  | .not _ c => c.NoSub
+  | .fileName _ c => c.NoSub
+  | .boost _ c => c.NoSub
+  | .noVisit c => c.NoSub
+  | _ => True
+def MTs.NoSubAll : MTs → Prop
+  | .nil => True
+  | .cons h t => h.NoSub ∧ MTs.NoSubAll t
+end
+
+/-- meaning of a sub-free tree -/
+abbrev sem0 (d : Nat) (t : MT) : Bool := t.sem (fun _ _ => false) (fun _ _ => true) d
+abbrev semAll0 (d : Nat) (ch : MTs) : Bool := MTs.semAll (fun _ _ => false) (fun _ _ => true) d ch
+abbrev semAny0 (d : Nat) (ch : MTs) : Bool := MTs.semAny (fun _ _ => false) (fun _ _ => true) d ch
+abbrev Cur0 (L : Nat) (t : MT) : Prop := t.Cur (fun _ _ => false) L
+abbrev CurAll0 (L : Nat) (ch : MTs) : Prop := MTs.CurAll (fun _ _ => false) L ch
+
+mutual
+theorem MT.nextDoc_noSub : (t : MT) → t.NoSub → t.nextDoc.2 = t
+  | .doc _ _ _ _, _ => rfl
+  | .brute _ _, _ => rfl
+  | .none, _ => rfl
+  | .re _ _ _ _ _ _ _, _ => rfl
+  | .sub _, h => absurd h (by simp [MT.NoSub])
+  | .andLine _ _ _, h => absurd h (by simp [MT.NoSub])
+  | .and k ch, h => by simp only [MT.nextDoc, MTs.nextDocMax_noSub ch 0 h]
+  | .or k ch, h => by simp only [MT.nextDoc, MTs.nextDocMin_noSub ch maxU32 h]
+  | .not _ _, _ => rfl
+  | .fileName k c, h => by simp only [MT.nextDoc, MT.nextDoc_noSub c h]
+  | .boost k c, h => by simp only [MT.nextDoc, MT.nextDoc_noSub c h]
+  | .noVisit c, h => by simp only [MT.nextDoc, MT.nextDoc_noSub c h]
+theorem MTs.nextDocMax_noSub : (ch : MTs) → (acc : Nat) → MTs.NoSubAll ch → (MTs.nextDocMax ch acc).2 = ch
+  | .nil, _, _ => rfl
+  | .cons h t, acc, hh => by simp only [MTs.nextDocMax, MT.nextDoc_noSub h hh.1, MTs.nextDocMax_noSub t _ hh.2]
+theorem MTs.nextDocMin_noSub : (ch : MTs) → (acc : Nat) → MTs.NoSubAll ch → (MTs.nextDocMin ch acc).2 = ch
+  | .nil, _, _ => rfl
+  | .cons h t, acc, hh => by simp only [MTs.nextDocMin, MT.nextDoc_noSub h hh.1, MTs.nextDocMin_noSub t _ hh.2]
+end
+
+mutual
+theorem MT.prepare_noSub (ctx : Ctx) (nd : Nat) : (t : MT) → t.NoSub →
+    (t.prepare nd).NoSub ∧ Cur0 (nd + 1) (t.prepare nd) ∧ (∀ d, sem0 d (t.prepare nd) = sem0 d t) ∧
+    (t.prepare nd).val ctx nd = sem0 nd t
+  | .doc _ _ _ _, _ => by simp [MT.prepare, MT.NoSub, MT.Cur, MT.sem, MT.val]
+  | .brute _ _, _ => by simp [MT.prepare, MT.NoSub, MT.Cur, MT.sem, MT.val]
+  | .none, _ => by simp [MT.prepare, MT.NoSub, MT.Cur, MT.sem, MT.val]
+  | .re _ _ _ _ _ _ _, _ => by simp [MT.prepare, MT.NoSub, MT.Cur, MT.sem, MT.val]
+  | .sub _, h => absurd h (by simp [MT.NoSub])
+  | .andLine _ _ _, h => absurd h (by simp [MT.NoSub])
+  | .and k ch, h => by
+    have r := MTs.prepare_noSub ctx nd ch h
+    simp only [MT.prepare, MT.NoSub, MT.Cur, MT.sem, MT.val]
+    exact ⟨r.1, r.2.1, r.2.2.1, r.2.2.2.1⟩
+  | .or k ch, h => by
+    have r := MTs.prepare_noSub ctx nd ch h
+    simp only [MT.prepare, MT.NoSub, MT.Cur, MT.sem, MT.val]
+    exact ⟨r.1, r.2.1, r.2.2.2.2.1, r.2.2.2.2.2⟩
+  | .not k c, h => by
+    have r := MT.prepare_noSub ctx nd c h
+    simp only [MT.prepare, MT.NoSub, MT.Cur, MT.sem, MT.val]
+    exact ⟨r.1, trivial, fun d => by have a := r.2.2.1 d; simp only [sem0] at a; rw [a], by have a := r.2.2.2; simp only [sem0] at a; rw [a]⟩
+  | .fileName k c, h => by
+    have r := MT.prepare_noSub ctx nd c h
+    simp only [MT.prepare, MT.NoSub, MT.Cur, MT.sem, MT.val]
+    exact r
+  | .boost k c, h => by
+    have r := MT.prepare_noSub ctx nd c h
+    simp only [MT.prepare, MT.NoSub, MT.Cur, MT.sem, MT.val]
+    exact r
+  | .noVisit c, h => by
+    have r := MT.prepare_noSub ctx nd c h
+    simp only [MT.prepare, MT.NoSub, MT.Cur, MT.sem, MT.val]
+    exact r
+theorem MTs.prepare_noSub (ctx : Ctx) (nd : Nat) : (ch : MTs) → MTs.NoSubAll ch →
+    MTs.NoSubAll (MTs.prepare nd ch) ∧ CurAll0 (nd + 1) (MTs.prepare nd ch) ∧
+    (∀ d, semAll0 d (MTs.prepare nd ch) = semAll0 d ch) ∧ MTs.valAll ctx nd (MTs.prepare nd ch) = semAll0 nd ch ∧
+    (∀ d, semAny0 d (MTs.prepare nd ch) = semAny0 d ch) ∧ MTs.valAny ctx nd (MTs.prepare nd ch) = semAny0 nd ch
+  | .nil, _ => by simp [MTs.prepare, MTs.NoSubAll, MTs.CurAll, MTs.semAll, MTs.semAny, MTs.valAll, MTs.valAny]
+  | .cons h t, hh => by
+    have r1 := MT.prepare_noSub ctx nd h hh.1
+    have r2 := MTs.prepare_noSub ctx nd t hh.2
+    simp only [MTs.prepare, MTs.NoSubAll, MTs.CurAll, MTs.semAll, MTs.semAny, MTs.valAll, MTs.valAny]
+    refine ⟨⟨r1.1, r2.1⟩, ⟨r1.2.1, r2.2.1⟩, fun d => ?_, ?_, fun d => ?_, ?_⟩
+    · have a := r1.2.2.1 d; have b := r2.2.2.1 d; simp only [sem0, semAll0] at a b; rw [a, b]
+    · have a := r1.2.2.2; have b := r2.2.2.2.1; simp only [sem0, semAll0] at a b; rw [a, b]
+    · have a := r1.2.2.1 d; have b := r2.2.2.2.2.1 d; simp only [sem0, semAny0] at a b; rw [a, b]
+    · have a := r1.2.2.2; have b := r2.2.2.2.2.2; simp only [sem0, semAny0] at a b; rw [a, b]
+end
+
+
+/-- evaluation only touches `known` entries and `evaluated` flags -/
+structure Kept (L : Nat) (t t' : MT) : Prop where
+  noSub : t'.NoSub
+  cur : Cur0 L t → Cur0 L t'
+  sem : ∀ d, sem0 d t' = sem0 d t
+
+structure KeptAll (L : Nat) (ch ch' : MTs) : Prop where
+  noSub : MTs.NoSubAll ch'
+  cur : CurAll0 L ch → CurAll0 L ch'
+  semAll : ∀ d, semAll0 d ch' = semAll0 d ch
+  semAny : ∀ d, semAny0 d ch' = semAny0 d ch
+
+theorem Kept.rfl' (L : Nat) (t : MT) (h : t.NoSub) : Kept L t t := ⟨h, id, fun _ => rfl⟩
+
+mutual
+theorem MT.eval_kept (ctx : Ctx) (doc cost L : Nat) : (t : MT) → t.NoSub → Kept L t (t.eval ctx doc cost).2
+  | .doc _ _ _ _, h => by simp only [MT.eval]; exact Kept.rfl' L _ h
+  | .brute _ _, h => by simp only [MT.eval]; exact Kept.rfl' L _ h
+  | .none, h => by simp only [MT.eval]; exact Kept.rfl' L _ h
+  | .re w f bits fd id ev fo, h => by
+    simp only [MT.eval]
+    split
+    · exact Kept.rfl' L _ h
+    · split
+      · exact Kept.rfl' L _ h
+      · exact ⟨trivial, fun hc => hc, fun _ => rfl⟩
+  | .sub _, h => absurd h (by simp [MT.NoSub])
+  | .andLine _ _ _, h => absurd h (by simp [MT.NoSub])
+  | .and k ch, h => by
+    simp only [MT.eval]
+    cases k with
+    | some v => exact Kept.rfl' L _ h
+    | none =>
+      have r := MTs.evalAnd_kept ctx doc cost L ch h
+      exact ⟨r.noSub, r.cur, r.semAll⟩
+  | .or k ch, h => by
+    simp only [MT.eval]
+    cases k with
+    | some v => exact Kept.rfl' L _ h
+    | none =>
+      have r := MTs.evalOr_kept ctx doc cost L ch h
+      exact ⟨r.noSub, r.cur, r.semAny⟩
+  | .not k c, h => by
+    simp only [MT.eval]
+    cases k with
+    | some v => exact Kept.rfl' L _ h
+    | none =>
+      have r := MT.eval_kept ctx doc cost L c h
+      exact ⟨r.noSub, fun _ => trivial, fun d => by have a := r.sem d; simp only [sem0, MT.sem] at a ⊢; rw [a]⟩
+  | .fileName k c, h => by
+    simp only [MT.eval]
+    cases k with
+    | some v => exact Kept.rfl' L _ h
+    | none =>
+      have r := MT.eval_kept ctx doc cost L c h
+      exact ⟨r.noSub, r.cur, r.sem⟩
+  | .boost k c, h => by
+    simp only [MT.eval]
+    cases k with
+    | some v => exact Kept.rfl' L _ h
+    | none =>
+      have r := MT.eval_kept ctx doc cost L c h
+      exact ⟨r.noSub, r.cur, r.sem⟩
+  | .noVisit c, h => by
+    simp only [MT.eval]
+    have r := MT.eval_kept ctx doc cost L c h
+    exact ⟨r.noSub, r.cur, r.sem⟩
+theorem MTs.evalAnd_kept (ctx : Ctx) (doc cost L : Nat) : (ch : MTs) → MTs.NoSubAll ch →
+    KeptAll L ch (MTs.evalAnd ctx doc cost ch).2
+  | .nil, _ => by simp only [MTs.evalAnd]; exact ⟨trivial, id, fun _ => rfl, fun _ => rfl⟩
+  | .cons h t, hh => by
+    have r1 := MT.eval_kept ctx doc cost L h hh.1
+    have r2 := MTs.evalAnd_kept ctx doc cost L t hh.2
+    simp only [MTs.evalAnd]
+    generalize h.eval ctx doc cost = rv at r1
+    generalize MTs.evalAnd ctx doc cost t = rtv at r2
+    obtain ⟨sh, h'⟩ := rv
+    obtain ⟨stl, t'⟩ := rtv
+    have a := r1.sem; have b := r2.semAll; have c := r2.semAny
+    simp only [sem0, semAll0, semAny0] at a b c
+    cases sh <;> simp only []
+    · exact ⟨⟨r1.noSub, r2.noSub⟩, fun hc => ⟨r1.cur hc.1, r2.cur hc.2⟩,
+        fun d => by simp only [semAll0, MTs.semAll, a d, b d], fun d => by simp only [semAny0, MTs.semAny, a d, c d]⟩
+    · exact ⟨⟨r1.noSub, r2.noSub⟩, fun hc => ⟨r1.cur hc.1, r2.cur hc.2⟩,
+        fun d => by simp only [semAll0, MTs.semAll, a d, b d], fun d => by simp only [semAny0, MTs.semAny, a d, c d]⟩
+    · exact ⟨⟨r1.noSub, hh.2⟩, fun hc => ⟨r1.cur hc.1, hc.2⟩,
+        fun d => by simp only [semAll0, MTs.semAll, a d], fun d => by simp only [semAny0, MTs.semAny, a d]⟩
+theorem MTs.evalOr_kept (ctx : Ctx) (doc cost L : Nat) : (ch : MTs) → MTs.NoSubAll ch →
+    KeptAll L ch (MTs.evalOr ctx doc cost ch).2
+  | .nil, _ => by simp only [MTs.evalOr]; exact ⟨trivial, id, fun _ => rfl, fun _ => rfl⟩
+  | .cons h t, hh => by
+    have r1 := MT.eval_kept ctx doc cost L h hh.1
+    have r2 := MTs.evalOr_kept ctx doc cost L t hh.2
+    simp only [MTs.evalOr]
+    have a := r1.sem; have b := r2.semAll; have c := r2.semAny
+    simp only [sem0, semAll0, semAny0] at a b c
+    exact ⟨⟨r1.noSub, r2.noSub⟩, fun hc => ⟨r1.cur hc.1, r2.cur hc.2⟩,
+      fun d => by simp only [semAll0, MTs.semAll, a d, b d], fun d => by simp only [semAny0, MTs.semAny, a d, c d]⟩
+end
+
+theorem evalCosts_kept (ctx : Ctx) (doc L : Nat) : ∀ (n cost : Nat) (t : MT) (acc : List St), t.NoSub →
+    Kept L t (evalCosts ctx doc n cost t acc).2.2 := by
+  intro n
+  induction n with
+  | zero => intro cost t acc h; simp only [evalCosts]; exact Kept.rfl' L t h
+  | succ n ih =>
+    intro cost t acc h
+    have r := MT.eval_kept ctx doc cost L t h
+    rw [evalCosts]
+    generalize t.eval ctx doc cost = rv at r
+    obtain ⟨st, t'⟩ := rv
+    have step : ∀ acc', Kept L t (evalCosts ctx doc n (cost + 1) t' acc').2.2 := by
+      intro acc'
+      have r2 := ih (cost + 1) t' acc' r.noSub
+      exact ⟨r2.noSub, fun hc => r2.cur (r.cur hc), fun d => by rw [r2.sem d, r.sem d]⟩
+    cases st with
+    | none => exact r
+    | higher =>
+      simp only []
+      split
+      · exact r
+      · exact step _
+    | found => exact step _
+
 end ZoektModel.C01
